@@ -120,6 +120,14 @@ def slice_reader_arg(eng, st, name="input"):
     return VRef(cell, (), True)
 
 
+def own_site(site_info_, inner="AVP::write"):
+    """was this writer event emitted by the function under analysis itself (or a helper / closure it runs), as opposed
+    to inside a nested `inner` call (an AVP's own encoder)?  Decided from the call context, not the function name, so
+    that extracting `write_header()` / `patch_length()` helpers changes nothing."""
+    ctx = site_info_.get("ctx") or ""
+    return not any(inner in part for part in ctx.split(" > ")[1:])
+
+
 # ---------------------------------------------------------------- wire views (independent of how the code groups its reads)
 
 def wire_octets(eng, st, reads):
